@@ -257,9 +257,11 @@ var $newType = (size, kind, string, named, pkg, exported, constructor) => {
                 typ.fields = fields;
                 // The field types may be initialized after this type: ask them on demand.
                 Object.defineProperty(typ, "comparable", { get: () => fields.every(f => f.typ.comparable) });
+                // Blank fields are ignored in comparisons, hence in map keys as well.
+                var keyFields = fields.filter(f => f.name !== "_");
                 typ.keyFor = x => {
                     var val = x.$val;
-                    return $mapArray(fields, f => {
+                    return $mapArray(keyFields, f => {
                         return String(f.typ.keyFor(val[f.prop])).replace(/\\/g, "\\\\").replace(/\$/g, "\\$");
                     }).join("$");
                 };
